@@ -35,7 +35,12 @@ class ASTWalker:
         if isinstance(node, Decorator):
             node = node.func
         elif isinstance(node, OverloadedFuncDef):
-            node = node.impl
+            if node.impl is not None:
+                node = node.impl
+            else:
+                # No implementation: a property with a setter, or overloads of a protocol / stub. Take the first variant.
+                first_item = node.items[0]
+                node = first_item.func if isinstance(first_item, Decorator) else first_item
 
         if node in visited_nodes:  # pragma: no cover
             raise AssertionError("Node visited twice")
